@@ -1,13 +1,9 @@
 package control
 
-func dnsScenarioC08(w *dnsWorld) {}
 func dnsScenarioC07(w *dnsWorld) {}
 func dnsScenarioC10(w *dnsWorld) {}
 func dnsScenarioC18(w *dnsWorld) {}
 
-func (w *dnsWorld) c08AfterOp(op *dnsOp)                   {}
-func (w *dnsWorld) c07AfterOp(op *dnsOp)                   {}
-func (w *dnsWorld) c08OnRemoved(e *dnsEntryObs, before int) {}
-func (w *dnsWorld) c08OnQuery(q *dnsUpQuery)               {}
+func (w *dnsWorld) c07AfterOp(op *dnsOp) {}
 
 type dnsC18 struct{}
